@@ -9,7 +9,7 @@ from vf.treeform import canon, iter_nodes, diff_bucket, class_names
 from vf.normform import normal_form
 
 ID = "C13"
-BUDGET = {"quick": 1200, "thorough": 20000}
+BUDGET = {"quick": 2400, "thorough": 20000}
 RULE = ("Programs from G; the statement list is split into a main text and <= 3 include files at statement "
         "boundaries (ranges may nest and may cut across construct and unit boundaries); files are written under "
         "three directories, include_dirs given in a drawn order with decoy files of the same name (garbage) in later "
@@ -138,13 +138,13 @@ def build(rnd, tier, flags):
         idx = {st.uid: i for i, (st, _) in enumerate(flat)}
         repl = []   # (first stmt index, last stmt index exclusive, name)
         used = set()
-        for k in range(r.n(1, 3)):
+        for k in range(r.n(2, 5)):
             if not bodies:
                 break
             body = r.pick(bodies)
             i = r.n(0, len(body) - 1)
             j = r.n(i, min(len(body) - 1, i + 2))
-            if r.chance(50):
+            if r.chance(65):
                 # prefer a run that ends directly in front of a nested construct (the places where a rule that has to
                 # look ahead pushes lines back)
                 cand = [(bd, q) for bd in bodies for q in range(len(bd) - 1)
